@@ -208,16 +208,17 @@ void bn_div_rem_dig(bn_t c, dig_t *d, const bn_t a, dig_t b) {
 		bn_copy(q, a);
 		bn_div1_low(q->dp, &r, (const dig_t *)a->dp, b, a->used);
 
-		if (c != NULL) {
-			bn_copy(c, q);
-		}
-
+		/* Read the sign of a before c, which may be a itself, is written. */
 		if (d != NULL) {
 			if (bn_sign(a) == RLC_NEG && r != 0) {
 				*d = b - r;
 			} else {
 				*d = r;
 			}
+		}
+
+		if (c != NULL) {
+			bn_copy(c, q);
 		}
 	}
 	RLC_CATCH_ANY {
